@@ -204,7 +204,7 @@ def replay_playback(fi, repo="/repo"):
             return 2
         ok, msg = _run_playback(scratch, kdir, dict(package=fi["package"], features=fi.get("features")),
                                 fi["harness"], fi["test_name"], fi["test_code"])
-        print("native playback:", "FAILS - " + msg if ok else msg)
+        print("native playback:", "FAILS - " + msg if ok else ("passes on this tree" if ok is False else msg))
         return 1 if ok else 0
     finally:
         shutil.rmtree(scratch, ignore_errors=True)
